@@ -173,6 +173,21 @@ func (e *Env) expr(x ast.Expr) Val {
 		if bx, ok := xt.(*types.Basic); ok && bx.Info()&types.IsUntyped != 0 {
 			xt = yt
 		}
+		// In contracts, + - * on Go's type int (lengths, positions, counts) is mathematical: no
+		// wrap-around in the int encoding. Machine arithmetic is specified with int64/uint64.
+		if c.it.mode == ModeInt && isPlainInt(e.typeOf(n)) {
+			switch n.Op {
+			case token.ADD:
+				return Val{t: c.it.addNW(a.t, b.t), typ: e.typeOf(n)}
+			case token.SUB:
+				if b.t == "0" {
+					return Val{t: a.t, typ: e.typeOf(n)}
+				}
+				return Val{t: sx("-", a.t, b.t), typ: e.typeOf(n)}
+			case token.MUL:
+				return Val{t: sx("*", a.t, b.t), typ: e.typeOf(n)}
+			}
+		}
 		return tr.binopT(e.st, n.Op, xt, yt, e.typeOf(n), a, b, func(goal Sx, kind string) {})
 	case *ast.CallExpr:
 		return e.call(n)
@@ -284,6 +299,11 @@ func (e *Env) expr(x ast.Expr) Val {
 	c.unsupp("spec: expression %T", x)
 	t := e.typeOf(x)
 	return Val{t: c.declConst("specx", c.sortOf(t)), typ: t}
+}
+
+func isPlainInt(t types.Type) bool {
+	b, ok := t.(*types.Basic)
+	return ok && (b.Kind() == types.Int || b.Kind() == types.UntypedInt)
 }
 
 func isNilType(t types.Type) bool {
@@ -573,6 +593,16 @@ func (e *Env) prelude(name string, n *ast.CallExpr, typeArgs []types.Type, rt ty
 			p := sx("bvmul", sx("(_ sign_extend 64)", a), sx("(_ sign_extend 64)", b))
 			return Val{t: eq(p, sx("(_ sign_extend 64)", sx("(_ extract 63 0)", p))), typ: B}
 		}
+	case "mulAbsLtU":
+		// exact |a*b| < bound, computed in 128 bits (bv) or mathematically (int)
+		a, b, bd := arg(0).t, arg(1).t, arg(2).t
+		if it.mode == ModeInt {
+			p := sx("*", a, b)
+			return Val{t: sx("<", ite(sx("<", p, "0"), sx("-", p), p), bd), typ: B}
+		}
+		p := sx("bvmul", sx("(_ sign_extend 64)", a), sx("(_ sign_extend 64)", b))
+		ap := ite(sx("bvslt", p, "(_ bv0 128)"), sx("bvneg", p), p)
+		return Val{t: sx("bvult", ap, sx("(_ zero_extend 64)", bd)), typ: B}
 	case "isNaN":
 		return Val{t: sx("fp.isNaN", arg(0).t), typ: B}
 	case "isInf":
@@ -687,8 +717,12 @@ func (e *Env) prelude(name string, n *ast.CallExpr, typeArgs []types.Type, rt ty
 			if r, ok := fa.Body.List[0].(*ast.ReturnStmt); ok {
 				body = ne.expr(r.Results[0]).t
 			}
-		case *ast.Ident:
-			if fo, ok := e.info.Uses[fa].(*types.Func); ok && fo.Pkg() != nil {
+		case *ast.Ident, *ast.SelectorExpr:
+			id, _ := fa.(*ast.Ident)
+			if se, ok := fa.(*ast.SelectorExpr); ok {
+				id = se.Sel
+			}
+			if fo, ok := e.info.Uses[id].(*types.Func); ok && fo.Pkg() != nil {
 				if sf := tr.contracts.SpecDecls[fo.Pkg().Path()+"."+fo.Name()]; sf != nil {
 					qe := *e
 					qe.qdepth++
@@ -729,6 +763,18 @@ func (e *Env) prelude(name string, n *ast.CallExpr, typeArgs []types.Type, rt ty
 		if mt, ok := e.typeOf(n.Args[0]).Underlying().(*types.Map); ok {
 			dom, _ := tr.mapKeys(mt)
 			return Val{t: sx("select", sx("select", tr.memGet(e.st, dom), m.t), k.t), typ: B}
+		}
+	case "ghostInt":
+		if lit, ok := n.Args[1].(*ast.BasicLit); ok {
+			key := "X:" + strings.Trim(lit.Value, `"`)
+			tr.regKey(key, []Sx{"Int"}, it.isort())
+			return Val{t: sx("select", tr.memGet(e.st, key), arg(0).t), typ: rt}
+		}
+	case "ghostSeq":
+		if lit, ok := n.Args[1].(*ast.BasicLit); ok {
+			key := "XS:" + strings.Trim(lit.Value, `"`)
+			tr.regKey(key, []Sx{"Int", it.isort()}, "Int")
+			return Val{t: sx("select", sx("select", tr.memGet(e.st, key), arg(0).t), e.intIndex(n.Args[2])), typ: rt}
 		}
 	case "nothingModified":
 		var cs []Sx
